@@ -392,6 +392,35 @@ func c12(r *core.Run) {
 							}
 						}
 					}
+					if !skipOK {
+						// the per-seed step may sit in a private helper (createIfMissing): every seed write of
+						// the unit lies behind a failed read of its key
+						all, n := true, 0
+						for _, h := range p.Helpers(cl) {
+							if h == cl || h.Name() == "setValue" {
+								continue
+							}
+							for _, c := range core.Calls(h) {
+								cal := c.Common().StaticCallee()
+								if cal == nil || !(isTxnWrite(c) || cal.Name() == "setValue") {
+									continue
+								}
+								n++
+								ok := false
+								for _, ed := range dominatingEdges(c) {
+									for _, d := range impliedConds(ed, 0) {
+										if strings.Contains(d, "Txn).Get") && strings.HasSuffix(d, "!=nil") {
+											ok = true
+										}
+									}
+								}
+								if !ok {
+									all = false
+								}
+							}
+						}
+						skipOK = all && n > 0
+					}
 					r.Check(skipOK, "I1", core.FuncName(cl), "existing-ids-skipped", p.Pos(cl.Pos()), "a seed is written only when reading its key failed (not found)", "seeds overwrite existing values")
 				}
 			}
@@ -589,23 +618,49 @@ func c13(r *core.Run) {
 			if !isBadgerCall(c, "Txn", "Set") {
 				continue
 			}
-			// key built by getKey(rname, K): K must be known non-nil
-			kc, ok := c.Common().Args[1].(*ssa.Call)
-			var keyVal ssa.Value
-			if ok && kc.Common().StaticCallee() == gk {
-				keyVal = kc.Common().Args[2]
+			// key built by getKey(rname, K): K must be known non-nil. The Set may sit in a private
+			// helper that is handed the built key: then every call site of the helper is judged.
+			type site struct {
+				key ssa.Value
+				at  ssa.Instruction
 			}
-			nn := false
-			for _, ed := range dominatingEdges(c) {
-				ci := core.Cond(ed.If.Cond)
-				if ci.Kind == "nilcmp" && keyVal != nil && ci.X == keyVal {
-					truth := ed.Succ == 0
-					if ci.Negate {
-						truth = !truth
+			sites := []site{{c.Common().Args[1], c}}
+			if prm, isPrm := c.Common().Args[1].(*ssa.Parameter); isPrm && p.IsPrivateHelper(f2) {
+				sites = nil
+				pi := -1
+				for i, q := range f2.Params {
+					if q == prm {
+						pi = i
 					}
-					if (ci.Op == token.NEQ) == truth {
-						nn = true
+				}
+				for _, cs := range p.CallersOf(f2) {
+					if pi >= 0 && pi < len(cs.Common().Args) {
+						sites = append(sites, site{cs.Common().Args[pi], cs})
 					}
+				}
+			}
+			nn := len(sites) > 0
+			for _, st := range sites {
+				kc, ok := st.key.(*ssa.Call)
+				var keyVal ssa.Value
+				if ok && kc.Common().StaticCallee() == gk {
+					keyVal = kc.Common().Args[2]
+				}
+				one := false
+				for _, ed := range dominatingEdges(st.at) {
+					ci := core.Cond(ed.If.Cond)
+					if ci.Kind == "nilcmp" && keyVal != nil && ci.X == keyVal {
+						truth := ed.Succ == 0
+						if ci.Negate {
+							truth = !truth
+						}
+						if (ci.Op == token.NEQ) == truth {
+							one = true
+						}
+					}
+				}
+				if !one {
+					nn = false
 				}
 			}
 			r.Check(nn, "K2", core.FuncName(f2), "index-Set-dominated-by-key!=nil", p.InstrPos(c), "an index entry is written only for a non-nil key", "an index entry can be written for a nil key")
@@ -2319,14 +2374,22 @@ func c12InitAllOrNothing(r *core.Run, rule, rel string) {
 	// user's callback)
 	var adder, body *ssa.Function
 	var cbCall ssa.CallInstruction
-	for _, f2 := range withAnon(init) {
+	var scope []*ssa.Function
+	for _, h := range append([]*ssa.Function{init}, txnUnit(p, init)...) {
+		scope = append(scope, withAnon(h)...)
+	}
+	inScope := map[*ssa.Function]bool{}
+	for _, f2 := range scope {
+		inScope[f2] = true
+	}
+	for _, f2 := range scope {
 		for _, c := range core.Calls(f2) {
 			if !core.IsDynamic(c) || c.Common().IsInvoke() {
 				continue
 			}
 			for _, a := range c.Common().Args {
 				if mc, ok := core.Strip(a).(*ssa.MakeClosure); ok {
-					if fn, ok := mc.Fn.(*ssa.Function); ok && core.Outermost(fn) == init {
+					if fn, ok := mc.Fn.(*ssa.Function); ok && inScope[fn] {
 						adder, body, cbCall = fn, f2, c
 					}
 				} else if u, ok := core.Strip(a).(*ssa.UnOp); ok && u.Op == token.MUL {
@@ -2479,6 +2542,45 @@ func c12InitAllOrNothing(r *core.Run, rule, rel string) {
 			}
 			if good {
 				checked = true
+			}
+		}
+	}
+	// the callback may be run by a helper of the transaction body (loadInitEntries(cb)): its error
+	// result must then end the caller before any write
+	if checked && body.Parent() == nil && p.IsPrivateHelper(body) {
+		for _, cs := range p.CallersOf(body) {
+			caller := cs.Parent()
+			var errVal ssa.Value
+			if cv := cs.Value(); cv != nil {
+				if _, isTuple := cv.Type().(*types.Tuple); !isTuple {
+					errVal = cv
+				} else if cv.Referrers() != nil {
+					for _, rf := range *cv.Referrers() {
+						if ex, ok := rf.(*ssa.Extract); ok && types.TypeString(ex.Type(), nil) == "error" {
+							errVal = ex
+						}
+					}
+				}
+			}
+			for _, c := range core.Calls(caller) {
+				cal := c.Common().StaticCallee()
+				if !(isTxnWrite(c) || (cal != nil && mayWrite[cal])) {
+					continue
+				}
+				dom := false
+				for _, ed := range dominatingEdges(c) {
+					cnd, succ := ed.Norm()
+					bo, ok := cnd.(*ssa.BinOp)
+					if !ok || (bo.Op != token.EQL && bo.Op != token.NEQ) || errVal == nil || bo.X != errVal {
+						continue
+					}
+					if k, isC := bo.Y.(*ssa.Const); isC && k.IsNil() && (bo.Op == token.EQL) == (succ == 0) {
+						dom = true
+					}
+				}
+				if !dom {
+					checked = false
+				}
 			}
 		}
 	}
